@@ -89,6 +89,7 @@ type Ctx struct {
 	allocOrd        int
 	noNote          int // >0 while havocking at a loop header (not a write of the loop body)
 	recSpecs        map[string]*recSpec
+	inputs          *inputDesc
 	noAssume        map[string]bool // obligations (known findings) whose goals must not be assumed afterwards
 }
 
